@@ -46,3 +46,54 @@ impl AdjacencyMatrix {
         }
     @*/
 }
+
+//@file src/repr/edge_list/mod.rs
+impl EdgeList {
+    /// C15: exactly one arc between every pair of distinct vertices
+    spec fn tournament(&self) -> bool {
+        forall|a: int, b: int| #![trigger self.has(a, b)] 0 <= a < self.ord() && 0 <= b < self.ord() && a != b ==> self.has(a, b) != self.has(b, a)
+    }
+
+    /// loop state: decided pairs carry exactly one arc, undecided pairs none
+    spec fn tour_upto(&self, u: int, v: int) -> bool {
+        forall|a: int, b: int| #![trigger self.has(a, b)] 0 <= a < b < self.ord() ==>
+            if decided(a, b, u, v) { self.has(a, b) != self.has(b, a) } else { !self.has(a, b) && !self.has(b, a) }
+    }
+
+    /*@fn trait=Empty name=trivial file=src/gen/empty.rs dropwhere=Self
+    ensures
+        r.wf(),
+        r.ord() == 1,
+        forall|a: int, b: int| #![trigger r.has(a, b)] !r.has(a, b),
+    @*/
+
+    /*@fn impl=EdgeList trait=RandomTournament name=random_tournament
+    ensures
+        order >= 1,
+        r.wf(),
+        r.ord() == order,
+        r.tournament(),
+    @loop 1
+    invariant
+        digraph.wf(),
+        digraph.ord() == order,
+        digraph.tour_upto(u as int, 0),
+    @loop 2
+    invariant
+        u < order,
+        digraph.wf(),
+        digraph.ord() == order,
+        digraph.tour_upto(u as int, v as int),
+    @loop_start 2
+        let ghost d0 = digraph;
+        assert(u < v < order);
+    @loop_end 2
+        proof {
+            assert forall|a: int, b: int| #![trigger digraph.has(a, b)] 0 <= a < b < digraph.ord() implies
+                (if decided(a, b, u as int, v + 1) { digraph.has(a, b) != digraph.has(b, a) } else { !digraph.has(a, b) && !digraph.has(b, a) }) by {
+                assert(d0.has(a, b) == d0.has(a, b) && d0.has(b, a) == d0.has(b, a));
+                assert(digraph.has(b, a) == digraph.has(b, a));
+            }
+        }
+    @*/
+}
